@@ -22,11 +22,13 @@ Programs: ALL definitions of a bounded grammar (nothing is sampled):
    seq  - a Sequence of a 2-field item (25 pairs + a tag-length-value item), trailing or with
           its octet length in an earlier field, holding 0..3 elements.
 Inputs  : for every definition the complete product of every field's boundary set
-          {min, min+1, pattern 0xA5.., max-1, max} (3-value sets {min, pattern, max} for the
-          4-atom envelopes and the nest programs), plus, one field at a time, min-1 / max+1
-          / buffers one octet short or long, and for decoding every truncation, trailing
-          octets, every single-bit flip of a fixed-value part, spare bits set, over-wide
-          bit-field values.
+          {min, min+1, pattern 0xA5.., max-1, max}; where that product exceeds a stated cap the
+          3-value sets {min, pattern, max} (then {min, max}) are used instead (the size used is
+          counted per program in the evidence); plus, one field at a time, min-1 / max+1 /
+          fixed buffers one octet short or long, and for decoding every truncation, trailing
+          octets with length checking on and off, every single-bit flip of a fixed-value part,
+          every reserved / padding bit set, over-wide bit-field values with all-zero and
+          all-one neighbours.
 Oracle  : a generic reference packer/unpacker written from the descriptions (bit strings and
           per-octet arithmetic, no struct / int.to_bytes): to_bytes(v) = reference octets;
           from_bytes(octets) = v (+ derived length fields and fixed parts); consumed = declared
@@ -703,7 +705,7 @@ class Judge:
         self.out = []
         self.cov = {"programs": 1, "assignments": 0, "error_cases": 0, "truncations": 0, "trailing": 0,
                     "illegal_values": 0, "fixed_flips": 0, "noncanonical": 0, "overwide": 0, "evaluations": 0,
-                    "octets_encoded": 0, "valid_prefixes": 0}
+                    "octets_encoded": 0, "valid_prefixes": 0, "length_lies": 0}
         self.case = {"prog": prog, "size": size, "ndiag": ndiag}
 
     def viol(self, law, kind, msg):
@@ -725,7 +727,9 @@ class Judge:
         self.DecodeError, self.EncodeError = C.DecodeError, C.EncodeError
         for vals in assignments(descs, self.size):
             self.roundtrip(vals)
-        diag = diagonal(descs)[:self.ndiag]
+        diag = diagonal(descs)
+        if self.ndiag < len(diag):
+            diag = [diag[i] for i in sorted(set((0, len(diag) // 2, len(diag) - 1)))][:self.ndiag]
         for vals in diag:
             self.decode_faults(vals)
         pv = pattern_vals(descs)
@@ -786,8 +790,8 @@ class Judge:
         try:
             b = bytes(E.to_bytes())
         except Exception as ex:
-            self.viol("encode-raises-" + type(ex).__name__, "any", "to_bytes() of in-range values %r raised %s: %s"
-                      % (vals, type(ex).__name__, ex))
+            self.viol("encode-raises-" + type(ex).__name__, "any", "to_bytes() of in-range values %r raised %s"
+                      % (vals, root_cause(ex)))
             return
         if b != ref:
             self.viol("encode-layout", self.culprit_enc(vals, b, ref),
@@ -807,7 +811,7 @@ class Judge:
             again = bytes(E.to_bytes())          # E.c is the decoded content
         except Exception as ex:
             self.viol("reencode-raises-" + type(ex).__name__, "any", "to_bytes() of the decoded content %r raised %s"
-                      % (exp, ex))
+                      % (exp, root_cause(ex)))
             return
         if again != ref:
             self.viol("reencode", self.culprit_enc(vals, again, ref),
@@ -852,6 +856,22 @@ class Judge:
             self.cov["trailing"] += 2
             self.cov["error_cases"] += 1 if exp is None else 0
         self.compare_decode(self.E0, False, ref, "trailing", "check_len=off")
+        # a length field that says one octet less / more than what follows (top level; whatever the reference
+        # reads - an error, or the neighbouring octets shifted - the codec must read the same)
+        pos = 0
+        for f, seg in segments(self.descs, vals):
+            if f["t"] == "int" and "derive" in f:
+                cur = r_int_dec(f, seg)
+                for lie in (cur - 1, cur + 1):
+                    try:
+                        enc = r_int_enc(f, lie)
+                    except RefErr:
+                        continue
+                    self.cov["length_lies"] += 1
+                    exp = self.compare_decode(self.E, True, ref[:pos] + enc + ref[pos + len(seg):], "length-field",
+                                              f.get("kind", "int"))
+                    self.cov["error_cases"] += 1 if exp is None else 0
+            pos += len(seg)
 
     def int_slots(self, descs, prefix=()):
         for f in descs:
@@ -1011,11 +1031,19 @@ class Judge:
         try:
             again = bytes(self.E.to_bytes())
         except Exception as ex:
-            self.viol("reserved-bits:reencode-raises-" + type(ex).__name__, kind, str(ex))
+            self.viol("reserved-bits:reencode-raises-" + type(ex).__name__, kind, root_cause(ex))
             return
         if again != ref:
             self.viol("reserved-bits:reencode", kind, "re-encoding %s gives %s, canonical %s"
                       % (data.hex(), again.hex(), ref.hex()))
+
+
+def root_cause(ex):
+    """deterministic text for an exception chain (the codec's errors carry object reprs with addresses)"""
+    while ex.__cause__ is not None:
+        ex = ex.__cause__
+    return "%s(%s)" % (type(ex).__name__, ", ".join(str(a) for a in getattr(ex, "args", ())
+                                                     if isinstance(a, (str, int, bytes))))
 
 
 def judge_prog(prog, size, ndiag=5):
@@ -1228,25 +1256,28 @@ def run(ctx):
     c["shapes"] = len(shapes)
     c["distinct_nontrivial"] = c["assignments"] + c["error_cases"]
     c["work_chunks"] = len(chunks)
-    c["rule"] = ("all definitions of the grammar: envelopes of 0..%d atoms over the %d-atom menu (position rules: flexible "
-                 "parts last, a length-referencing buffer needs an earlier unbound Uint8, an optional field an earlier "
-                 "flag)%s; a BitFieldSet between two integer fields for every composition of 8 bits and of 16/24/32 bits "
-                 "into <= %s parts, orders msb/lsb (+ default/little for 8 bits), variants plain, explicit len +1, last "
-                 "part dropped, spare at each position, fixed value at each position; nested envelopes of depth 2..3 "
-                 "(fix/ref/flex at every level, %d-atom level menu); sequences of 26 two-field items x 3 prefixes x "
-                 "{trailing, length-prefixed}. Per definition: the complete product of every field's boundary set "
-                 "{min, min+1, 0xA5.. pattern, max-1, max} (nest programs%s: {min, pattern, max}; sequence programs: "
-                 "0 elements, 1 element x all item assignments, 2 x 3-value sets, 3 x 2-value sets), then for %d "
-                 "diagonal assignments every truncation offset, 2 trailing strings with length checking on and off, and "
-                 "for the pattern assignment min-1/max+1 of every integer, fixed buffers one octet short/long, every "
-                 "single-bit flip of fixed bit-field parts, every reserved/padding bit set, 5 over-wide values per "
-                 "bit-field. programs = definitions, assignments = value assignments round-tripped, error_cases = inputs "
-                 "that must raise DecodeError/EncodeError; non-trivial = assignments + error cases (all distinct by "
-                 "construction: each definition is generated once, each assignment once per definition)"
+    c["rule"] = ("all definitions of the grammar, each generated once: (env) envelopes of 0..%d atoms over the %d-atom menu "
+                 "(flexible parts last, a length-referencing buffer needs an earlier unbound Uint8, an optional field an "
+                 "earlier flag); (bfs) a BitFieldSet between two integer fields: %s, variants plain / explicit len +1 / last "
+                 "part dropped / spare at a position / fixed value at a position; (nest) nested envelopes of depth 2..3 with "
+                 "fix / length-from-field / flexible nesting at every level and fields before and after; (seq) sequences "
+                 "of 26 two-field items x 3 prefixes x {trailing, length-prefixed}. Per definition the complete product of "
+                 "every field's boundary set {min, min+1, 0xA5.. pattern, max-1, max}; when the product exceeds the cap "
+                 "(%s) the sets {min, pattern, max}, then {min, max} are used (coverage.programs_set5/3/2); nest programs "
+                 "use {min, pattern, max} (depth 3%s: {min, max}); sequences hold 0 elements, 1 element x all item "
+                 "assignments, 2 x 3-value sets, 3 x 2-value sets. Then, for %d diagonal assignments, every truncation "
+                 "offset and 2 trailing strings with length checking on and off; for the pattern assignment min-1/max+1 "
+                 "of every integer, fixed buffers one octet short/long, every single-bit flip of fixed bit-field parts, "
+                 "every reserved/padding bit set, 5-9 over-wide values per bit-field. programs = definitions, assignments "
+                 "= value assignments round-tripped against the reference packer, error_cases = inputs that must raise "
+                 "DecodeError/EncodeError; non-trivial = assignments + error cases (distinct by construction)"
                  % (3 if ctx.quick else 4, len(ENV_ATOMS),
-                    "" if ctx.quick else " (4-atom envelopes with the 3-value sets {min, pattern, max})",
-                    "4 (24/32 bits: 3)" if ctx.quick else "4", 3 if ctx.quick else 5,
-                    "" if ctx.quick else " and 4-atom envelopes", ndiag))
+                    ("every composition of 8 bits (4 order spellings), of 16/24/32 bits into <= 3 parts with every variant "
+                     "and of 16 bits into 4 parts plain, orders msb/lsb") if ctx.quick else
+                    ("every composition of 8 bits (4 order spellings) and of 16/24/32 bits into <= 4 parts, orders msb/lsb "
+                     "(24/32 bits in 4 parts: spare/fixed part first or last only)"),
+                    "%d assignments" % CAP_QUICK if ctx.quick else "none up to 3 atoms, %d for 4 atoms" % CAP_THOROUGH_4,
+                    "" if ctx.quick else " over the 5-atom level menu", ndiag))
     c["exhaustive"] = True
     ctx.assumptions += [
         "LSB-first is 'basically reversed order' (codec.py): for an explicit len larger than the bit sum the unused "
